@@ -77,3 +77,19 @@ REG.contract(
     raises={"TypeError#conv": ("h5_refuses_write(gid(self), slc, data)", "helper")},
     ensures=["same(sigma('data'), store_data(old(sigma('data')), gid(self), ds_write(old(ddata(gid(self))), slc, data)))"],
     note="dataset[slc] = data (slc None: dataset[:] = data)")
+
+
+@REG.specfunc()
+def dec(ex, p, v):
+    """bytes attribute values are decoded to text by get_attr"""
+    t = box(ex.deref(p, v))
+    return VDyn(z3.If(Val.is_VBytes(t), Val.VStr(Val.bs(t)), t))
+
+
+REG.contract(
+    "nixio.hdf5.h5group.H5Group.get_attr", assumed=True,
+    params=dict(self=Obj("H5Group"), name=Str), result=Dyn,
+    ensures=["result == ite_(gid(self) == 0, boxed(None), dec(attr(gid(self), name)))"],
+    note="h5py AttributeManager.get; None when the group does not exist or the attribute is absent")
+
+REG.fields("Dimension", _h5group=Obj("H5Group"), dim_index=Int, _parent=Dyn, _file=Obj("File"))
